@@ -16,13 +16,14 @@ import (
 	"sort"
 	"strings"
 	"sync"
+	"time"
 
 	"github.com/lidofinance/dc4bc/storage"
 	"github.com/lidofinance/dc4bc/storage/file_storage"
 )
 
 type boardStats struct {
-	FollowerReads                                                             int
+	FollowerReads, ConcurrentReads                                            int
 	Ops, Histories, Sends, Reads, MaxWriters, DistinctSizes, ProcessHistories int
 	OutcomeHist                                                               map[string]int
 	Monitors                                                                  []string
@@ -184,6 +185,65 @@ func runBoardDiff(outDir string, seed int64, tier string) {
 		}
 		var wg sync.WaitGroup
 		errs := make([]error, writers)
+		// readers WHILE the writers run (every node polls the board while the others post): a read returns an error or a
+		// piece of the log - entries at consecutive positions from the offset asked for, each as it is in the final file
+		type snapshot struct {
+			from int
+			got  []string
+		}
+		var snaps []snapshot
+		var snapMu sync.Mutex
+		stopReaders := make(chan struct{})
+		var rwg sync.WaitGroup
+		for rd := 0; rd < 2; rd++ {
+			rwg.Add(1)
+			go func(rd int) {
+				defer rwg.Done()
+				var kept storage.Storage
+				if rd == 0 {
+					if ks, err := file_storage.NewFileStorage(path, lock); err == nil {
+						kept = ks
+						defer kept.Close()
+					}
+				}
+				from := 0
+				for i := 0; i < 400; i++ {
+					select {
+					case <-stopReaders:
+						return
+					default:
+					}
+					var msgs []storage.Message
+					var err error
+					if kept != nil {
+						msgs, err = kept.GetMessages(uint64(from))
+					} else if fs, e := file_storage.NewFileStorage(path, lock); e == nil {
+						msgs, err = fs.GetMessages(uint64(from))
+						fs.Close()
+					} else {
+						err = e
+					}
+					if err == nil {
+						sn := snapshot{from: from}
+						for _, m := range msgs {
+							sn.got = append(sn.got, fmt.Sprintf("%d:%s", m.Offset, m.ID))
+						}
+						snapMu.Lock()
+						if len(snaps) < 4000 {
+							snaps = append(snaps, sn)
+						}
+						snapMu.Unlock()
+						// like a poller: sometimes go on from what was seen, sometimes look again from an earlier offset
+						if i%3 != 2 {
+							from += len(msgs)
+						} else if from > 0 {
+							from--
+						}
+					}
+					time.Sleep(time.Duration(200+100*rd) * time.Microsecond)
+				}
+			}(rd)
+		}
 		for w := 0; w < writers; w++ {
 			wg.Add(1)
 			go func(w int) {
@@ -203,9 +263,31 @@ func runBoardDiff(outDir string, seed int64, tier string) {
 			}(w)
 		}
 		wg.Wait()
+		close(stopReaders)
+		rwg.Wait()
 		for w, e := range errs {
 			if e != nil {
 				st.Monitors = append(st.Monitors, fmt.Sprintf("C16 send_failed: history %d writer %d: %v", h, w, e))
+			}
+		}
+		if final, err := readBoard(path); err == nil {
+			reported := 0
+			for _, sn := range snaps {
+				st.ConcurrentReads++
+				for k, g := range sn.got {
+					pos := sn.from + k
+					if pos >= len(final) || g != fmt.Sprintf("%d:%s", final[pos].Offset, final[pos].ID) || int(final[pos].Offset) != pos {
+						if reported < 3 {
+							reported++
+							have := "nothing"
+							if pos < len(final) {
+								have = fmt.Sprintf("%d:%s", final[pos].Offset, final[pos].ID)
+							}
+							st.Monitors = append(st.Monitors, fmt.Sprintf("C16 read_during_write: history %d (%d writers, procs=%v): a read from offset %d made while the writers ran returned %s as its entry %d; position %d of the final log holds %s", h, writers, useProcs, sn.from, g, k, pos, have))
+						}
+						break
+					}
+				}
 			}
 		}
 		st.Histories++
